@@ -195,10 +195,21 @@ def op_border(sim: Sim, a) -> str:
     if ds is None:
         return "skip"
     si, ti, tm, table = sim.pick_table(ds, a["s"], a["t"])
-    if tm.merges:
-        return "skip"  # bound: strokes are drawn on tables without merged ranges
     side = a["side"]
     r, c = a["r"] % tm.nrows, a["c"] % tm.ncols
+    if tm.merges and not sim.cfg.get("strokes_on_merged"):
+        return "skip"  # only the look profile models strokes on tables with merged ranges
+    if tm.merges and not side_visible(tm, r, c, side):
+        # documented: the edge of the addressed cell is hidden inside its merged range; the call is
+        # ignored (with a RuntimeWarning)
+        sim.probe("stroke_on_hidden_merged_edge")
+        if sim.real:
+            from numbers_parser import RGB, Border
+
+            with warnings.catch_warnings():
+                warnings.simplefilter("ignore")
+                table.set_cell_border(*_pos_args(r, c, a.get("nota", "rc")), side, Border(a["width"], RGB(*a["color"]), a["style"]), max(1, a.get("len") or 1))
+        return "ignored_hidden_edge"
     room = (tm.ncols - c) if side in ("top", "bottom") else (tm.nrows - r)
     length = max(1, min(a.get("len", 1), room))
     val = (a["width"], tuple(a["color"]), {"solid": 0, "dashes": 1, "dots": 2, "none": 3}[a["style"]])
@@ -233,8 +244,20 @@ def op_border(sim: Sim, a) -> str:
     return "ok"
 
 
+def side_visible(tm, r: int, c: int, side: str) -> bool:
+    """A side of a cell is visible unless the edge lies strictly inside the cell's merged range."""
+    m = tm.merge_at(r, c)
+    if m is None:
+        return True
+    r0, c0, r1, c1 = m
+    return {"top": r == r0, "bottom": r == r1, "left": c == c0, "right": c == c1}[side]
+
+
 def expected_borders(tm, r: int, c: int) -> tuple:
-    return (tm.hedge.get((r, c)), tm.vedge.get((r, c + 1)), tm.hedge.get((r + 1, c)), tm.vedge.get((r, c)))
+    vals = (tm.hedge.get((r, c)), tm.vedge.get((r, c + 1)), tm.hedge.get((r + 1, c)), tm.vedge.get((r, c)))
+    if not tm.merges:
+        return vals
+    return tuple(v if side_visible(tm, r, c, s) else None for v, s in zip(vals, ("top", "right", "bottom", "left")))
 
 
 def check_look(sim: Sim, table, tm, where: str, what: str, reloaded: bool, cells=None, defaults=None) -> None:
@@ -245,9 +268,9 @@ def check_look(sim: Sim, table, tm, where: str, what: str, reloaded: bool, cells
         cells = [(r, c) for r in range(tm.nrows) for c in range(tm.ncols)]
     for r, c in cells:
         cell = data[r][c]
-        if type(cell).__name__ == "MergedCell":
+        if type(cell).__name__ == "MergedCell" and (what == "style" or not sim.cfg.get("strokes_on_merged")):
             continue
-        if what in ("style", "both"):
+        if what in ("style", "both") and type(cell).__name__ != "MergedCell":
             name = tm.styles.get((r, c))
             if name is not None:
                 got = style_snapshot(cell.style)
